@@ -211,7 +211,7 @@ def run_playback(scratch, build, names, logdir, tag):
     if b["package"] == "lorawan-device":
         # the build's own features plus the two regions the crate's #[cfg(test)] modules need
         fs = [f for f in b["features"].split(",") if f]
-        for f in ("region-eu868", "region-us915"):
+        for f in ["region-eu868", "region-us915"] + list(b.get("playback_features", [])):
             if f not in fs:
                 fs.append(f)
         feats = ["--no-default-features", "--features", ",".join(fs)]
